@@ -112,6 +112,9 @@ def run(prog, rep, tier, cfg):
             X.followed_by('K7', 'notify-on-every-success-path:%s' % key, H, txs, [c.bb for c in cs], 'after the ledgers changed every success path notifies the power actor')
     # functions that call the notifier must be in the frozen table (a new notifier gets reviewed)
     X.callers('K5', 'notify_pledge_changed', is_notify, list(NOTIFY.keys()), crates=[CR])
+    # the amount unlocked while repaying fee debt is what those callers notify (rows shared with C15)
+    import props.c15 as c15
+    c15.repay_partial_results(prog, rep, X, prefix='ledger:')
     # ---- power side
     X.writers('K4', 'State', 'total_pledge_collateral', ['state::State::add_pledge_total'], crate=PW, constructors=['state::State::new'])
     # (field-based: the rows below hold whether the one-line mutator `add_pledge_total` exists or is inlined)
